@@ -1,0 +1,212 @@
+//go:build verif
+
+// Contracts for package indexes, property C10 ("an epoch is served only from indexes built for that epoch and CAR").
+// Comment-only; read by /verif/vcgo, build tag verif. The codec contracts (C01) are in contracts_verif.go.
+package indexes
+
+// bytesEq(a, b): bytes.Equal(a, b)
+//@ spec func bytesEq(a []byte, b []byte) bool = len(a) == len(b) && (forall i int :: 0 <= i && i < len(a) ==> a[i] == b[i])
+// firstAt(m, key, i): pair i is the first pair of the meta m stored under key (same definition as in package indexmeta)
+//@ spec func firstAt(m indexmeta.Meta, key []byte, i int) bool = 0 <= i && i < len(m.KeyVals) && bytesEq(m.KeyVals[i].Key, key) && (forall j int :: 0 <= j && j < i ==> !bytesEq(m.KeyVals[j].Key, key))
+//@ spec func validNet(n Network) bool = n == NetworkMainnet || n == NetworkTestnet || n == NetworkDevnet
+
+// ---- the identity record of an index and its four assertions ----
+// result == nil <==> the field equals the argument.
+
+//@ func (*Metadata) AssertEpoch
+//@   mode int
+//@   ensures (result == nil) == (m.Epoch == x)
+
+//@ func (*Metadata) AssertNetwork
+//@   mode int
+//@   ensures (result == nil) == (m.Network == x)
+
+//@ func (*Metadata) AssertIndexKind
+//@   mode int
+//@   ensures (result == nil) == bytesEq(m.IndexKind, x)
+
+// cid.Cid is a struct of an external package and (Cid).Equals is an external method: vcgo gives its result no meaning, so
+// "result == nil <==> m.RootCid == x" cannot be established; what is checked is that nothing is written.
+//@ func (*Metadata) AssertRootCid
+//@   mode int
+
+//@ func IsValidNetwork
+//@   mode int
+//@   ensures result == validNet(network)
+
+// ---- writing / reading the identity record of a compact index (M1) ----
+
+// setDefaultMetadata appends, in this order, the pairs epoch (8 bytes little-endian), rootCid, network, kind to the
+// builder's meta; on failure some of them may already have been appended. It fails exactly when an argument is nil, the
+// root CID is undefined, the network is unknown, the kind is empty or the meta has no room for four more pairs / a value
+// longer than 255 bytes.
+//@ func setDefaultMetadata
+//@   mode int
+//@   requires index != nil ==> index.Header.Metadata != nil
+//@   modifies index.Header.Metadata
+//@   ensures result == nil ==> index != nil && metadata != nil
+//@   ensures result == nil ==> len(index.Header.Metadata.KeyVals) == old(len(index.Header.Metadata.KeyVals)) + 4
+//@   ensures result == nil ==> forall i int :: 0 <= i && i < old(len(index.Header.Metadata.KeyVals)) ==> index.Header.Metadata.KeyVals[i] == old(index.Header.Metadata.KeyVals[i])
+//@   ensures result == nil ==> bytesEq(index.Header.Metadata.KeyVals[old(len(index.Header.Metadata.KeyVals))].Key, indexmeta.MetadataKey_Epoch)
+//@   ensures result == nil ==> len(index.Header.Metadata.KeyVals[old(len(index.Header.Metadata.KeyVals))].Value) == 8
+//@   ensures result == nil ==> forall t int :: 0 <= t && t < 8 ==> index.Header.Metadata.KeyVals[old(len(index.Header.Metadata.KeyVals))].Value[t] == byte(metadata.Epoch >> (8*uint(t)))
+//@   ensures result == nil ==> bytesEq(index.Header.Metadata.KeyVals[old(len(index.Header.Metadata.KeyVals)) + 1].Key, indexmeta.MetadataKey_RootCid)
+//@   ensures result == nil ==> bytesEq(index.Header.Metadata.KeyVals[old(len(index.Header.Metadata.KeyVals)) + 2].Key, indexmeta.MetadataKey_Network)
+//@   ensures result == nil ==> len(index.Header.Metadata.KeyVals[old(len(index.Header.Metadata.KeyVals)) + 2].Value) == len(metadata.Network)
+//@   ensures result == nil ==> bytesEq(index.Header.Metadata.KeyVals[old(len(index.Header.Metadata.KeyVals)) + 3].Key, indexmeta.MetadataKey_Kind)
+//@   ensures result == nil ==> bytesEq(index.Header.Metadata.KeyVals[old(len(index.Header.Metadata.KeyVals)) + 3].Value, metadata.IndexKind)
+//@   ensures result == nil ==> validNet(metadata.Network) && len(metadata.IndexKind) > 0
+
+// getDefaultMetadata: each field comes from the FIRST pair stored under its key; a missing key or an epoch value that is not
+// 8 bytes long is an error. (Root CID: cid.Cast is external, its result has no meaning for vcgo. Network: a []byte->string
+// conversion keeps only the length in vcgo.)
+//@ func getDefaultMetadata
+//@   mode int
+//@   requires index != nil && index.Header != nil && index.Header.Metadata != nil
+//@   ensures result1 == nil ==> result0 != nil && fresh(result0)
+//@   ensures result1 == nil ==> exists i int :: firstAt(*index.Header.Metadata, indexmeta.MetadataKey_Kind, i) && result0.IndexKind == index.Header.Metadata.KeyVals[i].Value
+//@   ensures result1 == nil ==> exists i int :: firstAt(*index.Header.Metadata, indexmeta.MetadataKey_Epoch, i) && len(index.Header.Metadata.KeyVals[i].Value) == 8 && (forall t int :: 0 <= t && t < 8 ==> byte(result0.Epoch >> (8*uint(t))) == index.Header.Metadata.KeyVals[i].Value[t])
+//@   ensures result1 == nil ==> exists i int :: firstAt(*index.Header.Metadata, indexmeta.MetadataKey_RootCid, i)
+//@   ensures result1 == nil ==> exists i int :: firstAt(*index.Header.Metadata, indexmeta.MetadataKey_Network, i) && len(result0.Network) == len(index.Header.Metadata.KeyVals[i].Value)
+//@   ensures result1 != nil ==> result0 == nil
+
+// ---- format sniffing ----
+
+//@ func IsOldMagic
+//@   mode int
+//@   ensures result == (magicBytes == oldMagic)
+
+//@ func IsFileOldFormat
+//@   mode int
+//@   requires file != nil
+//@   ensures result1 == nil ==> 8 <= fsize(file)
+//@   ensures result1 == nil ==> (result0 <==> (forall i int :: 0 <= i && i < 8 ==> fbyte(file, i) == oldMagic[i]))
+//@   ensures result1 != nil ==> !result0
+
+// ---- readers: Meta() getters ----
+// `pure`: the meta pointer of a reader is set once, by the open function that creates the reader, and never reassigned
+// (no other assignment to the field exists in the package), so Meta() is a function of the receiver.
+
+//@ func (*CidToOffsetAndSize_Reader) Meta
+//@   mode int
+//@   pure
+//@   ensures result == r.meta
+
+//@ func (*SlotToCid_Reader) Meta
+//@   mode int
+//@   pure
+//@   ensures result == r.meta
+
+//@ func (*SigToCid_Reader) Meta
+//@   mode int
+//@   pure
+//@   ensures result == r.meta
+
+//@ func (*PubkeyToOffsetAndSize_Reader) Meta
+//@   mode int
+//@   pure
+//@   ensures result == r.meta
+
+// a deprecated-format cid-to-offset index carries no identity at all
+//@ func (*Deprecated_CidToOffset_Reader) Meta
+//@   mode int
+//@   pure
+//@   ensures result == nil
+
+//@ func (*SlotToCid_Reader) IsDeprecatedOldVersion
+//@   mode int
+//@   pure
+//@   ensures result == (r.deprecatedIndex != nil)
+
+//@ func (*SigToCid_Reader) IsDeprecatedOldVersion
+//@   mode int
+//@   pure
+//@   ensures result == (r.deprecatedIndex != nil)
+
+// ---- M2: a successfully opened new-format index has a meta whose kind is the kind of the reader type ----
+// (plus what the open functions check besides: known network, defined root CID)
+
+// (The open functions also reject `meta.RootCid == cid.Undef`; cid.Undef is a variable of an external package, which vcgo reads
+// as a fresh unknown each time, so "RootCid is defined" cannot be carried into the postcondition.)
+//@ spec func openedAs(m *Metadata, kind []byte) bool = m != nil && bytesEq(m.IndexKind, kind) && validNet(m.Network)
+
+//@ func OpenWithReader_CidToOffsetAndSize
+//@   mode int
+//@   requires reader != nil
+//@   ensures result1 == nil ==> result0 != nil && fresh(result0) && openedAs(result0.meta, Kind_CidToOffsetAndSize) && result0.index != nil
+//@   ensures result1 != nil ==> result0 == nil
+
+//@ func OpenWithReader_PubkeyToOffsetAndSize
+//@   mode int
+//@   requires reader != nil
+//@   ensures result1 == nil ==> result0 != nil && fresh(result0) && openedAs(result0.meta, Kind_PubkeyToOffsetAndSize) && result0.index != nil
+//@   ensures result1 != nil ==> result0 == nil
+
+// slot-to-cid and sig-to-cid files may be in the deprecated format, which has no meta: then deprecatedIndex != nil, meta == nil
+//@ func OpenWithReader_SlotToCid
+//@   mode int
+//@   requires reader != nil
+//@   ensures result1 == nil ==> result0 != nil && fresh(result0)
+//@   ensures result1 == nil && result0.deprecatedIndex == nil ==> openedAs(result0.meta, Kind_SlotToCid) && result0.index != nil
+//@   ensures result1 == nil && result0.deprecatedIndex != nil ==> result0.meta == nil
+//@   ensures result1 != nil ==> result0 == nil
+
+//@ func OpenWithReader_SigToCid
+//@   mode int
+//@   requires reader != nil
+//@   ensures result1 == nil ==> result0 != nil && fresh(result0)
+//@   ensures result1 == nil && result0.deprecatedIndex == nil ==> openedAs(result0.meta, Kind_SigToCid) && result0.index != nil
+//@   ensures result1 == nil && result0.deprecatedIndex != nil ==> result0.meta == nil
+//@   ensures result1 != nil ==> result0 == nil
+
+//@ func OpenWithReader_SlotToCid_Deprecated
+//@   mode int
+//@   requires reader != nil
+//@   ensures result1 == nil ==> result0 != nil && fresh(result0) && result0.deprecatedIndex != nil && result0.meta == nil
+//@   ensures result1 != nil ==> result0 == nil
+
+//@ func OpenWithReader_SigToCid_Deprecated
+//@   mode int
+//@   requires reader != nil
+//@   ensures result1 == nil ==> result0 != nil && fresh(result0) && result0.deprecatedIndex != nil && result0.meta == nil
+//@   ensures result1 != nil ==> result0 == nil
+
+//@ func Deprecated_OpenWithReader_CidToOffset
+//@   mode int
+//@   requires reader != nil
+//@   ensures result1 == nil ==> result0 != nil && fresh(result0)
+//@   ensures result1 != nil ==> result0 == nil
+
+//@ func Open_CidToOffsetAndSize
+//@   mode int
+//@   ensures result1 == nil ==> result0 != nil && fresh(result0) && openedAs(result0.meta, Kind_CidToOffsetAndSize) && result0.index != nil
+//@   ensures result1 != nil ==> result0 == nil
+
+//@ func Open_PubkeyToOffsetAndSize
+//@   mode int
+//@   ensures result1 == nil ==> result0 != nil && fresh(result0) && openedAs(result0.meta, Kind_PubkeyToOffsetAndSize) && result0.index != nil
+//@   ensures result1 != nil ==> result0 == nil
+
+//@ func Open_SlotToCid
+//@   mode int
+//@   ensures result1 == nil ==> result0 != nil && fresh(result0)
+//@   ensures result1 == nil && result0.deprecatedIndex == nil ==> openedAs(result0.meta, Kind_SlotToCid) && result0.index != nil
+//@   ensures result1 != nil ==> result0 == nil
+
+//@ func Open_SigToCid
+//@   mode int
+//@   ensures result1 == nil ==> result0 != nil && fresh(result0)
+//@   ensures result1 == nil && result0.deprecatedIndex == nil ==> openedAs(result0.meta, Kind_SigToCid) && result0.index != nil
+//@   ensures result1 != nil ==> result0 == nil
+
+// Prefetch only flips a flag inside the compactindex handle (nothing the identity checks read)
+//@ func (*CidToOffsetAndSize_Reader) Prefetch
+//@   noframe
+//@ func (*SlotToCid_Reader) Prefetch
+//@   noframe
+//@ func (*SigToCid_Reader) Prefetch
+//@   noframe
+//@ func (*PubkeyToOffsetAndSize_Reader) Prefetch
+//@   noframe
+//@ func (*Deprecated_CidToOffset_Reader) Prefetch
+//@   noframe
